@@ -243,6 +243,9 @@ type Line struct {
 	Panic  any                       `json:"panic"`
 	Note   string                    `json:"note,omitempty"`
 	Sizes  map[string]map[string]int `json:"sizes,omitempty"`
+	// Welcome is the canonical JSON of the roles announced in the WELCOME of a join (implementation
+	// side only; the realm model has no WELCOME): see welcomeCheck in family_test.go.
+	Welcome string `json:"welcome,omitempty"`
 }
 
 func (w *world) line(out map[int][]wamp.Message, closed []int, note string) Line {
